@@ -3,7 +3,7 @@
 sid=$1; shift
 cd /verif
 git -C /repo diff --quiet || { echo "/repo not clean"; exit 2; }
-git -C /repo apply seeded/$sid/patch.diff || exit 2
+git -C /repo apply /verif/seeded/$sid/patch.diff || exit 2
 for c in "$@"; do
   out=$(./check $c --tier quick 2>&1 | grep -v conda); rc=$?
   echo "seed=$sid check=$c -> $(echo "$out" | grep -c '^VIOLATION') violation line(s); $(echo "$out" | grep '^VIOLATION' | head -2 | tr '\n' ' ')"
